@@ -100,8 +100,10 @@ def checkAll (nr nc : Nat) (prev : PosSet) : List Op → List String → Option 
       | some why => some why
       | none => checkAll nr nc cur ops toks
 
+def natsOrDash (l : List Nat) : String := if l.isEmpty then "-" else ",".intercalate (l.map toString)
+
 /-- `c17 big <nr> <nc> <op>… ? <query>…`: a history on a matrix with hundreds of thousands of rows; only the answers to the
-queries are observed (`q:r:c` membership, `w:c` column weight, `v:r` row weight), judged against the set semantics -/
+queries are observed (`q:r:c` membership, `w:c` column weight, `v:r` row weight, `ic:c` / `ir:r` the sorted column / row iterator), judged against the set semantics -/
 def handleBig (nr nc : String) (rest out : List String) : String :=
   let opsT := rest.takeWhile (· ≠ "?")
   let qsT := (rest.dropWhile (· ≠ "?")).drop 1
@@ -116,6 +118,8 @@ def handleBig (nr nc : String) (rest out : List String) : String :=
         | ["q", r, c] => if f (r.toNat?.getD 0) (c.toNat?.getD 0) then "1" else "0"
         | ["w", c] => toString ((List.range nr).filter (fun r => f r (c.toNat?.getD 0))).length
         | ["v", r] => toString ((List.range nc).filter (fun c => f (r.toNat?.getD 0) c)).length
+        | ["ic", c] => natsOrDash ((List.range nr).filter (fun r => f r (c.toNat?.getD 0)))
+        | ["ir", r] => natsOrDash ((List.range nc).filter (fun c => f (r.toNat?.getD 0) c))
         | _ => "?"
       let model := qsT.map (ans (fun r c => h.has r c))
       let want := qsT.map (ans spec)
